@@ -148,7 +148,7 @@ type RunHist func(hist []int) (key string, enabled bool)
 // BFS explores the state graph breadth-first: a state is the shortest history
 // that reaches it; successors are produced by replaying that history on a fresh
 // instance plus one operation.
-func (x *Cell) BFS(name string, opts BFSOpts, run RunHist) {
+func (x *Cell) BFS(name string, opts BFSOpts, run RunHist) (reps [][]int) {
 	if rp := x.ReplayOnly(); rp != nil {
 		var r struct {
 			Name string `json:"name"`
@@ -158,9 +158,10 @@ func (x *Cell) BFS(name string, opts BFSOpts, run RunHist) {
 			run(r.Hist)
 			x.Executions++
 		}
-		return
+		return nil
 	}
 	key0, _ := run(nil)
+	reps = append(reps, []int{})
 	x.Executions++
 	x.State(name + "|" + key0)
 	frontier := [][]int{{}}
@@ -176,7 +177,7 @@ func (x *Cell) BFS(name string, opts BFSOpts, run RunHist) {
 			for op := 0; op < opts.NumOps; op++ {
 				if x.TimeUp() || (opts.MaxStates > 0 && nstates >= opts.MaxStates) {
 					x.Cap(fmt.Sprintf("%s: state/time cap hit at depth %d (%d states)", name, depth, nstates))
-					return
+					return reps
 				}
 				nh := append(append(make([]int, 0, len(h)+1), h...), op)
 				k, en := run(nh)
@@ -188,6 +189,7 @@ func (x *Cell) BFS(name string, opts BFSOpts, run RunHist) {
 				if x.State(name + "|" + k) {
 					nstates++
 					next = append(next, nh)
+					reps = append(reps, nh)
 					if len(x.samples) < 3 && len(nh) >= 3 {
 						x.Sample(map[string]any{"bfs": name, "history": histNames(nh, opts.OpName), "state": trunc(k, 300)})
 					}
@@ -198,6 +200,7 @@ func (x *Cell) BFS(name string, opts BFSOpts, run RunHist) {
 		depth++
 	}
 	x.Note("bfs_depth_"+name, int64(depth))
+	return reps
 }
 
 // BFSReplay builds the replay payload understood by BFS.
